@@ -62,7 +62,7 @@ def memberCtx : Ctx → Ctx
 mutual
 /-- asdict, recurse=True: what the value at position `ctx` is replaced by -/
 def shapeD (o : Opts) (ctx : Ctx) : PVal → Out
-  | .atom a => serAt o.ser ctx (.atom a)
+  | .atom a => if serApplies o.ser a then serAt o.ser ctx (.atom a) else .atom a
   | .inst c h fs =>
     if opaqueAt o.ser ctx then serAt o.ser ctx (embed (.inst c h fs))
     else .record o.df (shapeDFields o c fs)
@@ -86,13 +86,21 @@ def shapeDPairs (o : Opts) : List (PVal × PVal) → List (Out × Out)
   | (k, v) :: r => (shapeD o .key k, shapeD o .member v) :: shapeDPairs o r
 end
 
+def isScalarV : PVal → Bool
+  | .atom a => a.isScalar
+  | _ => false
+
+/-- does the symbolic serializer replace this value? -/
+def serAppliesV (m : SerMode) : PVal → Bool
+  | .atom a => serApplies m a
+  | _ => m == .wrap
+
 /-- asdict, recurse=False: values untouched (but for the serializer) -/
 def shapeDFlat (o : Opts) (c : Nat) : List (FI × PVal) → List (String × Out)
   | [] => []
   | (f, v) :: r =>
     if passes o.filter f v then
-      (f.name, if o.ser == .wrap || (o.ser == .wrapLeaf && isAtom v) then serAt o.ser (.field c f) (embed v)
-               else embed v) :: shapeDFlat o c r
+      (f.name, if serAppliesV o.ser v then serAt o.ser (.field c f) (embed v) else embed v) :: shapeDFlat o c r
     else shapeDFlat o c r
 
 mutual
